@@ -1,0 +1,20 @@
+//go:build verif
+
+package lfs
+
+import "io"
+
+// VerifLogScan runs the `git log -p` parser on r (verification harness only).
+func VerifLogScan(dir byte, r io.Reader) (names []string, ptrs []*Pointer) {
+	s := newLogScanner(LogDiffDirection(dir), r)
+	for s.Scan() {
+		if p := s.Pointer(); p != nil {
+			names = append(names, p.Name)
+			ptrs = append(ptrs, p.Pointer)
+		}
+	}
+	return
+}
+
+// VerifLogArgs returns the argument list the log-based scans pass to `git log`.
+func VerifLogArgs() []string { return append([]string(nil), logLfsSearchArgs...) }
